@@ -26,7 +26,7 @@ fn unescape_ref(s: &str) -> String {
 #[test]
 fn verif_native_unescape() {
     let name = "verif_native_unescape";
-    let inputs = verif_strings(&['a', 'n', 't', 'r', '\\', '"', 'é'], 6);
+    let inputs = verif_strings(&['a', 'n', 't', 'r', '\\', '"', 'é'], if verif_deep() { 8 } else { 6 });
     let mut evaluated = 0u64;
     for s in &inputs {
         evaluated += 1;
@@ -92,7 +92,7 @@ fn verif_native_assemble_total() {
     let n = frags.len();
     let mut evaluated = 0u64;
     let mut ok = 0u64;
-    for len in 0..=4usize {
+    for len in 0..=(if verif_deep() { 5usize } else { 4 }) {
         for code in 0..n.pow(len as u32) {
             let mut c = code;
             let mut src = String::new();
@@ -116,4 +116,146 @@ fn verif_native_assemble_total() {
     }
     crate::symbol::reset_state();
     verif_out(&format!("VERIF-NATIVE name={} evaluated={} distinct={}", name, evaluated, ok));
+}
+
+fn image_of(src: &'static str) -> Result<Vec<u16>, ()> {
+    crate::symbol::reset_state();
+    let r = (|| -> miette::Result<Vec<u16>> {
+        let mut air = AsmParser::new(src)?.parse()?;
+        air.backpatch()?;
+        let mut v = vec![air.orig().unwrap_or(0x3000)];
+        for s in &air { v.push(s.emit()?); }
+        Ok(v)
+    })();
+    crate::symbol::reset_state();
+    r.map_err(|_| ())
+}
+
+/// C18 (assembly time): each feature setting on its own thread (the flag is a thread-local set once): the four stack
+/// mnemonics in lower/upper/mixed case, as instruction and in label position, are rejected iff the flag is off; 6 programs
+/// that use none of them assemble to the same image under both settings
+#[test]
+fn verif_native_feature_gate() {
+    let name = "verif_native_feature_gate";
+    let run = |stack: bool| std::thread::spawn(move || {
+        let feats: crate::features::Features = if stack { "stack".parse().unwrap() } else { "".parse().unwrap() };
+        crate::features::init(feats);
+        let mut out: Vec<(String, Result<Vec<u16>, ()>)> = Vec::new();
+        let mut srcs: Vec<String> = Vec::new();
+        for m in ["push r1", "pop r2", "call sub", "rets"] {
+            // only the mnemonic changes case (labels are case-sensitive)
+            let (mn, rest) = match m.find(' ') { Some(i) => (&m[..i], &m[i..]), None => (m, "") };
+            for v in [m.to_string(), format!("{}{}", mn.to_ascii_uppercase(), rest), format!("{}{}{}", mn[0..1].to_ascii_uppercase(), &mn[1..], rest)] {
+                srcs.push(format!("{}\nsub halt\n", v));
+                srcs.push(format!("lbl {}\nsub halt\n", v));
+            }
+            // the mnemonic alone in label position (followed by an ordinary instruction)
+            srcs.push(format!("{} add r0,r0,#1\nsub halt\n", m.split(' ').next().unwrap()));
+        }
+        for p in ["add r0,r0,#1\nhalt\n", ".orig x4000\nlea r0, s\nputs\nhalt\ns .stringz \"pop\"\n", "jsr f\nhalt\nf ret\n",
+                  "pushx add r1,r1,#1\nbr pushx\n", ".fill xD400\n.fill xD800\nhalt\n", "ld r0, callx\ncallx .fill x1\n"] {
+            srcs.push(p.to_string());
+        }
+        for s in srcs { let leaked: &'static str = Box::leak(s.clone().into_boxed_str()); let r = verif_catch(|| image_of(leaked)); out.push((s, r.unwrap_or(Err(())))); }
+        out
+    }).join();
+    let (off, on) = match (run(false), run(true)) { (Ok(a), Ok(b)) => (a, b), _ => { verif_out(&format!("VERIF-COUNTEREXAMPLE name={} input=- detail=panic while assembling", name)); panic!("violation"); } };
+    let mut evaluated = 0u64;
+    for ((s, a), (_, b)) in off.iter().zip(on.iter()) {
+        evaluated += 1;
+        let first = s.split(|c: char| c == ' ' || c == '\n').next().unwrap().to_ascii_lowercase();
+        let uses = s.split(|c: char| c.is_whitespace()).any(|w| ["push", "pop", "call", "rets"].contains(&w.to_ascii_lowercase().as_str()));
+        let _ = first;
+        let fail = |d: String| { verif_out(&format!("VERIF-COUNTEREXAMPLE name={} input={:?} detail={}", name, s, d)); panic!("violation"); };
+        if uses {
+            if a.is_ok() { fail("accepted without -f stack".to_string()); }
+            // with the flag: accepted when the mnemonic is in instruction position, still an error in label position
+            let label_pos = s.starts_with("push add") || s.starts_with("pop add") || s.starts_with("call add") || s.starts_with("rets add");
+            if !label_pos && b.is_err() { fail("rejected although -f stack is given".to_string()); }
+        } else if a != b {
+            fail(format!("image differs with the flag: {:04x?} vs {:04x?}", a, b));
+        }
+    }
+    verif_out(&format!("VERIF-NATIVE name={} evaluated={} distinct={}", name, evaluated, evaluated));
+}
+
+/// C19: every ordered triple over 9 sources (forward reference first, dangling reference, valid, failing in the lexer, failing in the parser after labels were recorded,
+/// failing at backpatch, sharing label names, using .orig/.break) assembled in ONE thread with reset_state() in between:
+/// each result equals the result of assembling that source first (repeatability included: the triple may repeat a source)
+#[test]
+fn verif_native_assembly_pure() {
+    let name = "verif_native_assembly_pure";
+    init_features();
+    let srcs: [&'static str; 9] = [
+        // forward reference before any definition / dangling reference to a name other sources define
+        "ld r0, b\nadd r0,r0,#1\nhalt\nb .fill x7\n",
+        "lea r1, a\nhalt\n",
+        "a add r0,r0,#1\nb br a\nhalt\n",
+        "a .fill x1\nb ld r0, a\n\"unterminated\n",
+        "a and r0,r0,#0\nb add r0, r0\nc halt\n",
+        "a ld r0, nowhere\nhalt\n",
+        ".orig x4000\nb lea r1, a\n.break\na halt\n",
+        "c halt\nc halt\n",
+        "x .stringz \"a;b\"\n.blkw 2\nbr x\n",
+    ];
+    let fresh: Vec<Result<Vec<u16>, ()>> = srcs.iter().map(|s| { let s: &'static str = s; std::thread::spawn(move || { init_features(); image_of_noreset(s) }).join().unwrap() }).collect();
+    let mut evaluated = 0u64;
+    for i in 0..9 { for j in 0..9 { for k in 0..9 {
+        evaluated += 1;
+        crate::symbol::reset_state();
+        let seq = [i, j, k];
+        for &x in &seq {
+            let got = verif_catch(|| image_of_noreset(srcs[x]));
+            crate::symbol::reset_state();
+            let ok = matches!(&got, Ok(g) if *g == fresh[x]);
+            if !ok {
+                verif_out(&format!("VERIF-COUNTEREXAMPLE name={} input=sources {:?} assembled in this order with reset_state() between detail=source {:?} gives {:?}, assembled first it gives {:?}",
+                    name, seq.iter().map(|q| srcs[*q]).collect::<Vec<_>>(), srcs[x], got, fresh[x]));
+                panic!("violation");
+            }
+        }
+    }}}
+    verif_out(&format!("VERIF-NATIVE name={} evaluated={} distinct={}", name, evaluated, 9));
+}
+fn image_of_noreset(src: &'static str) -> Result<Vec<u16>, ()> {
+    (|| -> miette::Result<Vec<u16>> {
+        let mut air = AsmParser::new(src)?.parse()?;
+        air.backpatch()?;
+        let mut v = vec![air.orig().unwrap_or(0x3000)];
+        for s in &air { v.push(s.emit()?); }
+        for i in 0..air.breakpoints.len() { v.push(0xB000 | air.breakpoints.nth(i).map(|b| b.address).unwrap_or(0)); }
+        Ok(v)
+    })().map_err(|_| ())
+}
+
+/// C05 (backs the assumption `pstream_ok` under which the parser is proved): for every string of <= 4 characters over 15
+/// characters and every sequence of <= 3 source fragments over 19, whatever `preprocess` hands to the parser contains no
+/// whitespace / comment / eof token, no directive other than .orig, and spans that lie inside the source
+#[test]
+fn verif_native_preprocess_stream() {
+    let name = "verif_native_preprocess_stream";
+    init_features();
+    let mut inputs = verif_strings(&['x', '0', 'r', '7', '#', '.', '"', ';', ' ', '\n', 'a', 'é', ':', 'o', 'g'], 4);
+    let frags = ["add", "r0", "#1", "x3000", ".fill", ".blkw", ".stringz", "\"a\\\"\"", ".orig", ".break", "lbl", "br", "halt", ";c\n", "\n", "é", ",", ".end", ".ORIG"];
+    for len in 1..=3usize { for code in 0..frags.len().pow(len as u32) { let mut c = code; let mut s = String::new(); for _ in 0..len { s.push_str(frags[c % frags.len()]); s.push(' '); c /= frags.len(); } inputs.push(s); } }
+    let mut evaluated = 0u64;
+    let mut streams = 0u64;
+    for s in &inputs {
+        evaluated += 1;
+        let src = leak(s);
+        match verif_catch(|| preprocess(src)) {
+            Err(m) => { verif_out(&format!("VERIF-COUNTEREXAMPLE name={} input={:?} detail=panic: {}", name, s, m)); panic!("violation"); }
+            Ok(Err(_)) => (),
+            Ok(Ok(toks)) => {
+                streams += 1;
+                for t in toks {
+                    let bad = matches!(t.kind, TokenKind::Whitespace | TokenKind::Comment | TokenKind::Eof)
+                        || matches!(t.kind, TokenKind::Dir(d) if d != DirKind::Orig)
+                        || t.span.end() > src.len();
+                    if bad { verif_out(&format!("VERIF-COUNTEREXAMPLE name={} input={:?} detail=token {:?} span {}..{} reaches the parser", name, s, t.kind, t.span.offs(), t.span.end())); panic!("violation"); }
+                }
+            }
+        }
+    }
+    verif_out(&format!("VERIF-NATIVE name={} evaluated={} distinct={}", name, evaluated, streams));
 }
